@@ -288,6 +288,221 @@ static void caseC02(long long k, Rng& g)
    S.end(k);
 }
 
+// ------------------------------------------------------------------------------------------------ netlib (C01/C02 --sub netlib)
+struct NetlibEntry
+{
+   const char* name;
+   const char* ext;
+   int cls;          // 1 finite optimum, 3 infeasible, 2 unbounded
+   double opt;
+};
+static const NetlibEntry NETLIB[] =
+{
+   {"adlittle", "mps", 1, 0.22549496316238038228101176621492e6}, {"afiro", "mps", 1, -0.46475314285714285714285714285714e3},
+   {"agg", "mps", 1, -0.35991767286576506712640824319636e8}, {"beaconfd", "mps", 1, 0.335924858072e5},
+   {"blend", "mps", 1, -0.30812149845828220173774356124984e2}, {"bore3d", "mps", 1, 0.13730803942084927215581987251301e4},
+   {"brandy", "mps", 1, 0.15185098964881283835426751550618e4}, {"capri", "mps", 1, 0.26900129137681610087717280693754e4},
+   {"etamacro", "mps", 1, -0.7557152333749133350792583667773e3}, {"finnis", "mps", 1, 0.17279106559561159432297900375543e6},
+   {"grow7", "mps", 1, -0.47787811814711502616766956242865e8}, {"israel", "mps", 1, -0.89664482186304572966200464196045e6},
+   {"kb2", "mps", 1, -0.17499001299062057129526866493726e4}, {"lotfi", "mps", 1, -0.2526470606188e2}, {"recipe", "mps", 1, -0.266616e3},
+   {"sc105", "mps", 1, -0.52202061211707248062628010857689e2}, {"sc205", "mps", 1, -0.52202061211707248062628010857689e2},
+   {"sc50a", "mps", 1, -0.64575077058564509026860413914575e2}, {"sc50b", "mps", 1, -0.7e2},
+   {"scagr25", "mps", 1, -0.14753433060768523167790925075974e8}, {"scagr7", "mps", 1, -0.2331389824330984e7},
+   {"scfxm1", "mps", 1, 0.18416759028348943683579089143655e5}, {"scorpion", "mps", 1, 0.18781248227381066296479411763586e4},
+   {"scrs8", "mps", 1, 0.90429695380079143579923107948844e3}, {"scsd1", "mps", 1, 0.86666666743333647292533502995263e1},
+   {"seba", "mps", 1, 0.157116e5}, {"share1b", "mps", 1, -0.7658931857918568112797274346007e5},
+   {"afiro", "lp", 1, -0.46475314285714285714285714285714e3}, {"scagr25", "lp", 1, -0.14753433060768523167790925075974e8},
+   {"bgetam", "mps", 3, 0}, {"box1", "mps", 3, 0}, {"ex72a", "mps", 3, 0}, {"forest6", "mps", 3, 0}, {"galenet", "mps", 3, 0},
+   {"gams10am", "mps", 3, 0}, {"klein1", "mps", 3, 0}, {"refinery", "mps", 3, 0}, {"woodinfe", "mps", 3, 0}, {"gas11", "mps", 2, 0},
+};
+static const int NNETLIB = (int)(sizeof(NETLIB) / sizeof(NETLIB[0]));
+
+static std::string instanceDir()
+{
+   const char* r = getenv("VERIF_REPO");
+   std::string d = std::string(r && *r ? r : "/repo") + "/check/instances/";
+   std::ifstream t(d + "afiro.mps");
+   if(t.good()) return d;
+   return "/repo/check/instances/";
+}
+
+static std::string netlibOnce(int fi, const ParamSet& cfg, const std::string& prop, bool count, std::string* detail)
+{
+   Sink& S = sink();
+   static std::map<int, LPModel> cache;
+   const NetlibEntry& E = NETLIB[fi];
+   std::string path = instanceDir() + E.name + "." + E.ext;
+   SoPlex sp;
+   quiet(sp);
+   cfg.apply(sp);
+   if(!sp.readFile(path.c_str()))
+   {
+      if(detail) *detail = "cannot read " + path;
+      return "netlib.unreadable";
+   }
+   if(!cache.count(fi)) cache[fi] = readBackReal(sp);
+   const LPModel& M = cache[fi];
+   sp.setIntParam(SoPlex::ITERLIMIT, 500000, true);
+   sp.setRealParam(SoPlex::TIMELIMIT, 120.0, true);
+   sp.optimize();
+   SolveOut o;
+   extract(sp, o);
+   int st = o.status;
+   if(count)
+   {
+      S.count(std::string("netlib.status.") + statusName(st));
+      S.count("netlib.solves");
+      S.maxi("netlib.max_iterations", o.iters);
+   }
+   if(st == SPX::ABORT_TIME)
+   {
+      if(count) S.count("netlib.inconclusive_time_budget");
+      return "";
+   }
+   std::string nm = std::string(E.name) + "." + E.ext;
+   if(prop == "C01")
+   {
+      if(E.cls == 1)
+      {
+         if(st != SPX::OPTIMAL)
+         {
+            if(detail) *detail = nm + " has a finite optimum but the status is " + statusName(st);
+            return std::string("netlib.complete.") + statusName(st);
+         }
+         double rel = std::fabs(o.objval - E.opt) / (1.0 + std::fabs(E.opt));
+         if(count) S.maxi("netlib.objVsListed/thr", rel / 1e-5);
+         if(rel > 1e-5)
+         {
+            if(detail) *detail = nm + ": objective " + ds(o.objval) + " but the listed optimum is " + ds(E.opt);
+            return "netlib.objective";
+         }
+      }
+      if(st == SPX::OPTIMAL)
+      {
+         if(E.cls != 1)
+         {
+            if(detail) *detail = nm + " has no finite optimum but the status is OPTIMAL";
+            return "netlib.optimal-but-no-optimum";
+         }
+         Tol tol;
+         tol.feas = sp.realParam(SoPlex::FEASTOL);
+         tol.opt = sp.realParam(SoPlex::OPTTOL);
+         if(count) S.count("netlib.certificates_checked");
+         std::string r = monitorOptimal(M, o, tol, "netlib.");
+         if(!r.empty())
+         {
+            if(detail) *detail = nm + ": " + r.substr(r.find(':') + 1);
+            return "netlib.cert." + r.substr(0, r.find(':'));
+         }
+      }
+      return "";
+   }
+   // C02
+   bool definite = st == SPX::OPTIMAL || st == SPX::INFEASIBLE || st == SPX::UNBOUNDED || st == SPX::INForUNBD;
+   if(definite)
+   {
+      if(count) S.count("netlib.verdicts_checked");
+      if(st == SPX::INFEASIBLE && E.cls != 3)
+      {
+         if(detail) *detail = nm + " is feasible but the status is INFEASIBLE";
+         return "netlib.verdict.INFEASIBLE-on-feasible";
+      }
+      if((st == SPX::UNBOUNDED || st == SPX::INForUNBD) && E.cls == 1)
+      {
+         if(detail) *detail = nm + " has a finite optimum but the status is " + statusName(st);
+         return std::string("netlib.verdict.") + statusName(st) + "-on-optimal";
+      }
+      if(st == SPX::OPTIMAL && E.cls != 1)
+      {
+         if(detail) *detail = nm + " has no finite optimum but the status is OPTIMAL";
+         return "netlib.verdict.OPTIMAL-on-nonoptimal";
+      }
+   }
+   if(sp.hasDualFarkas())
+   {
+      VectorReal y(sp.numRows());
+      if(sp.getDualFarkas(y))
+      {
+         if(count) S.count("netlib.farkas_checked");
+         FarkasRes f = checkFarkas(M, toQ(y), 1e-7);
+         double relm = f.proves ? dq(f.margin) / std::max(1e-300, dq(f.norm)) : 0.0;
+         if(!f.proves || relm <= 1e-9)
+         {
+            if(detail) *detail = nm + ": Farkas vector does not prove infeasibility: " + (f.proves ? "margin " + ds(relm) : f.why.substr(0, 200));
+            return "netlib.farkas";
+         }
+      }
+   }
+   if(sp.hasPrimalRay())
+   {
+      VectorReal d(sp.numCols());
+      if(sp.getPrimalRay(d))
+      {
+         if(count) S.count("netlib.ray_checked");
+         RayRes r = checkRay(M, toQ(d), 1e-7);
+         if(!r.valid)
+         {
+            if(detail) *detail = nm + ": primal ray invalid: " + r.why;
+            return "netlib.ray";
+         }
+      }
+   }
+   if(sp.boolParam(SoPlex::ENSURERAY))
+   {
+      if(st == SPX::INFEASIBLE && !sp.hasDualFarkas())
+      {
+         if(detail) *detail = nm + ": ensure-ray on, INFEASIBLE without Farkas vector";
+         return "netlib.ensureray.nofarkas";
+      }
+      if(st == SPX::UNBOUNDED && !sp.hasPrimalRay())
+      {
+         if(detail) *detail = nm + ": ensure-ray on, UNBOUNDED without primal ray";
+         return "netlib.ensureray.noray";
+      }
+   }
+   return "";
+}
+
+static void caseNetlib(long long k, Rng& g, const std::string& prop)
+{
+   Sink& S = sink();
+   static std::vector<ParamSet> pw = pairwiseConfigs(cli.seed + 31);
+   int fi;
+   if(prop == "C02")
+   {
+      // favour the infeasible / unbounded files
+      static const int sel[] = {29, 30, 31, 32, 33, 34, 35, 36, 37, 38, 1, 4, 12, 18, 27};
+      fi = sel[k % 15];
+   }
+   else fi = (int)(k % 29);
+   long long ci = k / (prop == "C02" ? 15 : 29);
+   ParamSet cfg = ci == 0 ? ParamSet() : (ci % 3 != 0 ? pw[(size_t)((ci * 7 + fi) % (long long)pw.size())] : randomAlgConfig(g));
+   if(prop == "C02")
+   {
+      cfg.b[SoPlex::ENSURERAY] = (ci % 2) == 1;
+      cfg.normalise();
+   }
+   S.begin(k, std::string("netlib ") + NETLIB[fi].name + "." + NETLIB[fi].ext + " " + cfg.key());
+   S.count("cases");
+   S.count(std::string("netlib.file.") + NETLIB[fi].name);
+   S.seen("cfg", fnv(cfg.key()));
+   S.seen("nontrivial", fnv(std::string(NETLIB[fi].name) + NETLIB[fi].ext + cfg.key()));
+   std::string detail;
+   std::string tag = netlibOnce(fi, cfg, prop, true, &detail);
+   if(!tag.empty())
+   {
+      ParamSet mc;
+      std::string cell = cellKey(cfg, [&](const ParamSet & p)
+      {
+         return netlibOnce(fi, p, prop, false, nullptr) == tag;
+      }, &mc);
+      S.viol(prop + ":" + tag + ":" + cell, detail + " | full config " + cfg.key(), Json().str("file", std::string(NETLIB[fi].name) + "." + NETLIB[fi].ext).str("settings",
+             cfg.settingsText()).str("minimal_cell", mc.key()).done());
+   }
+   if(k < 3) S.sample(Json().str("file", std::string(NETLIB[fi].name) + "." + NETLIB[fi].ext).str("config", cfg.key()).done());
+   S.end(k);
+}
+
 // ------------------------------------------------------------------------------------------------ C04
 static std::vector<VarStatus> toVS(const std::vector<int>& v)
 {
@@ -1649,7 +1864,8 @@ int main(int argc, char** argv)
    for(long long k = cli.from; k < cli.to; k++)
    {
       Rng g(fnv(cli.prop), cli.seed, (uint64_t)k);
-      if(cli.prop == "C01") caseC01(k, g);
+      if((cli.prop == "C01" || cli.prop == "C02") && cli.sub == "netlib") caseNetlib(k, g, cli.prop);
+      else if(cli.prop == "C01") caseC01(k, g);
       else if(cli.prop == "C02") caseC02(k, g);
       else if(cli.prop == "C04") caseC04(k, g);
       else if(cli.prop == "C05") caseC05(k, g);
